@@ -547,6 +547,44 @@ Proof.
       cbn in E. inversion E; subst. f_equal. apply IH; assumption.
 Qed.
 
+Definition axes_disjoint (axs : list axis) : Prop := NoDup (flat_map a_dims axs).
+
+Lemma NoDup_app_parts {A} (l1 l2 : list A) :
+  NoDup (l1 ++ l2) -> NoDup l1 /\ NoDup l2 /\ (forall x, In x l1 -> In x l2 -> False).
+Proof.
+  induction l1 as [|a l1 IH]; cbn; intros H; [repeat split; [constructor|exact H|intros x []]|].
+  inversion H as [|? ? Hna Hnd]; subst. destruct (IH Hnd) as (I1 & I2 & I3). repeat split.
+  - constructor; [|exact I1]. intros Hin. apply Hna. apply in_or_app. left. exact Hin.
+  - exact I2.
+  - intros x [<-|Hx] Hx2; [apply Hna; apply in_or_app; right; exact Hx2|exact (I3 x Hx Hx2)].
+Qed.
+
+Lemma NoDup_flat_map_filter {A B} (f : A -> list B) (P : A -> bool) (l : list A) :
+  NoDup (flat_map f l) -> NoDup (flat_map f (filter P l)).
+Proof.
+  induction l as [|a l IH]; cbn; intros H; [constructor|].
+  destruct (NoDup_app_parts _ _ H) as (H1 & H2 & H3). destruct (P a); cbn; [|apply IH, H2].
+  apply NoDup_app_intro; [exact H1|apply IH, H2|]. intros x Hx Hx2. apply (H3 x Hx).
+  apply in_flat_map in Hx2. destruct Hx2 as (b & Hb & Hxb). apply filter_In in Hb. apply in_flat_map. exists b. tauto.
+Qed.
+
+Lemma disjoint_unique axs a b x :
+  axes_disjoint axs -> In a axs -> In b axs -> In x (a_dims a) -> In x (a_dims b) -> a = b.
+Proof.
+  unfold axes_disjoint. induction axs as [|a0 axs IH]; intros H Ha Hb Hxa Hxb; [destruct Ha|].
+  cbn in H. destruct (NoDup_app_parts _ _ H) as (H1 & H2 & H3).
+  destruct Ha as [<-|Ha]; destruct Hb as [<-|Hb]; [reflexivity| | |apply IH; assumption].
+  - exfalso. apply (H3 x Hxa). apply in_flat_map. exists b. tauto.
+  - exfalso. apply (H3 x Hxb). apply in_flat_map. exists a. tauto.
+Qed.
+
+Lemma axis_of_unique axs a d : axes_disjoint axs -> In a axs -> In d (a_dims a) -> axis_of axs d = a.
+Proof.
+  intros Hd Ha Hda. unfold axis_of. destruct (find _ axs) as [a'|] eqn:E.
+  - apply find_some in E. destruct E as (Ha' & Hm). apply nmem_In in Hm. eapply disjoint_unique; eassumption.
+  - exfalso. apply (find_none _ _ E) in Ha. apply nmem_In in Hda. congruence.
+Qed.
+
 Lemma product_len1 (Ls : list (list label)) :
   Forall (fun dom : list label => Forall (fun l => length l = 1%nat) dom) Ls ->
   forall c, In c (product Ls) -> Forall (fun l : label => length l = 1%nat) c /\ length c = length Ls.
@@ -728,6 +766,38 @@ Section InitProofs.
     apply step_single; [|apply (Hfr' m' Hm' d Hd')]. intros Hin. exact (Hd m' Hm' d Hin Hd').
   Qed.
 
+  (* every dimension stays in exactly one axis *)
+  Lemma step_disjoint axs m : NoDup (mp_dims m) -> axes_disjoint axs -> axes_disjoint (step axs m).
+  Proof.
+    intros Hnd Hd. rewrite step_eq. unfold axes_disjoint. rewrite flat_map_app. cbn [flat_map a_dims]. rewrite app_nil_r.
+    apply NoDup_app_intro; [apply NoDup_flat_map_filter, Hd|exact Hnd|].
+    intros x Hx Hds. apply in_flat_map in Hx. destruct Hx as (a & Ha & Hxa). apply others_in in Ha.
+    destruct Ha as (_ & Ht). assert (touches (mp_dims m) a = true) by (apply touches_spec; exists x; tauto). congruence.
+  Qed.
+
+  Lemma fold_struct ms : forall axs,
+    pairwise_disjoint ms -> Forall (fresh axs) ms -> Forall (fun m => NoDup (mp_dims m)) ms ->
+    covers_dims n axs -> axes_disjoint axs ->
+    covers_dims n (fold_left step ms axs) /\ axes_disjoint (fold_left step ms axs).
+  Proof.
+    induction ms as [|m ms IH]; intros axs Hpd Hfr Hnd Hc Hd; [split; assumption|].
+    cbn [fold_left]. destruct Hpd as (Hdj & Hpd).
+    pose proof (Forall_inv Hfr) as Hf. pose proof (Forall_inv_tail Hfr) as Hfr'.
+    pose proof (Forall_inv Hnd) as Hn. pose proof (Forall_inv_tail Hnd) as Hnd'.
+    apply IH; try assumption.
+    - apply Forall_forall. intros m' Hm' d Hd'. rewrite Forall_forall in Hfr'. rewrite Forall_forall in Hdj.
+      apply step_single; [|apply (Hfr' m' Hm' d Hd')]. intros Hin. exact (Hdj m' Hm' d Hin Hd').
+    - apply step_covers; assumption.
+    - apply step_disjoint; assumption.
+  Qed.
+
+  Lemma init_disjoint shape : axes_disjoint (init_axes n shape).
+  Proof.
+    unfold axes_disjoint, init_axes. rewrite flat_map_concat_map, map_map. cbn [a_dims].
+    rewrite <- flat_map_concat_map. replace (flat_map (fun x => [x]) (seq 0 n)) with (seq 0 n); [apply seq_NoDup|].
+    induction (seq 0 n) as [|x l IHl]; [reflexivity|]. cbn. f_equal. exact IHl.
+  Qed.
+
   (* the initial axes *)
   Lemma init_single shape d : (d < n)%nat -> single (init_axes n shape) d.
   Proof.
@@ -775,18 +845,19 @@ End InitProofs.
 (* the list of properties actually processed is well formed: dimensions in range, no dimension used twice,
    explicit orders duplicate free and of the right arity *)
 Definition wf_maps (n : nat) (ms : list mprop) : Prop :=
-  pairwise_disjoint ms /\ Forall order_ok ms /\ Forall (fun m => forall d, In d (mp_dims m) -> (d < n)%nat) ms.
+  pairwise_disjoint ms /\ Forall order_ok ms /\ Forall (fun m => forall d, In d (mp_dims m) -> (d < n)%nat) ms
+  /\ Forall (fun m => NoDup (mp_dims m)) ms.
 
 Lemma wf_fresh n shape ms : wf_maps n ms -> Forall (fresh (init_axes n shape)) ms.
 Proof.
-  intros (_ & _ & Hr). eapply Forall_impl; [|exact Hr]. intros m Hm d Hd. apply init_single. apply Hm, Hd.
+  intros (_ & _ & Hr & _). eapply Forall_impl; [|exact Hr]. intros m Hm d Hd. apply init_single. apply Hm, Hd.
 Qed.
 
 (* every domain left by the init_mapped_dim calls is duplicate free *)
 Theorem final_doms_nodup n notnull shape ms :
   wf_maps n ms -> doms_nodup (fold_left (init_step n notnull) ms (init_axes n shape)).
 Proof.
-  intros Hwf. pose proof (wf_fresh n shape ms Hwf) as Hfr. destruct Hwf as (Hpd & Hoo & _).
+  intros Hwf. pose proof (wf_fresh n shape ms Hwf) as Hfr. destruct Hwf as (Hpd & Hoo & _ & _).
   destruct (init_doms_ok n shape) as (I1 & I2). apply fold_doms_ok; assumption.
 Qed.
 
@@ -799,7 +870,7 @@ Theorem final_covered n notnull shape ms v :
   notnull v = true ->
   covered (fold_left (init_step n notnull) ms (init_axes n shape)) v.
 Proof.
-  intros Hwf Hl Hb Ho Hnn. pose proof (wf_fresh n shape ms Hwf) as Hfr. destruct Hwf as (Hpd & _ & _).
+  intros Hwf Hl Hb Ho Hnn. pose proof (wf_fresh n shape ms Hwf) as Hfr. destruct Hwf as (Hpd & _ & _ & _).
   apply fold_covered; try assumption; [apply init_covers|apply init_covered; assumption].
 Qed.
 
@@ -812,4 +883,78 @@ Proof.
   - apply in_flat_map in H. destruct H as (ds & _ & H). apply filter_In in H. destruct H as (H & _).
     apply filter_In in H. tauto.
   - apply filter_In in H. destruct H as (H & _). apply filter_In in H. tauto.
+Qed.
+
+Theorem final_struct n notnull shape ms :
+  wf_maps n ms ->
+  covers_dims n (fold_left (init_step n notnull) ms (init_axes n shape))
+  /\ axes_disjoint (fold_left (init_step n notnull) ms (init_axes n shape)).
+Proof.
+  intros Hwf. pose proof (wf_fresh n shape ms Hwf) as Hfr. destruct Hwf as (Hpd & _ & _ & Hnd).
+  apply fold_struct; try assumption; [apply init_covers|apply init_disjoint].
+Qed.
+
+Lemma nat_list_eqb_refl l : nat_list_eqb l l = true.
+Proof. induction l as [|x l IH]; [reflexivity|]. cbn. rewrite Nat.eqb_refl. exact IH. Qed.
+
+Lemma c_red_in_axes s a : In a (c_red (ctx_of s)) -> In a (axes_of s).
+Proof. unfold ctx_of. cbn [c_red]. intros H. apply filter_In in H. tauto. Qed.
+
+(* line mode: the iterated axes, the x axis and the reduced axes together still hold every dimension *)
+Lemma ctx_covers s xd :
+  covers_dims (ndims_of s) (axes_of s) -> axes_disjoint (axes_of s) ->
+  s_xdim s = Some xd -> s_ydim s = None ->
+  covers_dims (ndims_of s) ((c_iter (ctx_of s) ++ [c_x (ctx_of s)]) ++ c_red (ctx_of s)).
+Proof.
+  intros Hc Hdj Hx Hy d Hd. destruct (Hc d Hd) as (a & Ha & Hda).
+  assert (Hsp : special s = [xd]) by (unfold special; rewrite Hx, Hy; reflexivity).
+  unfold ctx_of. cbn [c_iter c_x c_red]. rewrite Hx, Hsp.
+  set (Q := fun a0 : axis => negb (touches [xd] a0) &&
+                            (if s_aggall s then negb (touches (mapped_dims s) a0) else touches (s_agg s) a0)).
+  set (red := filter Q (axes_of s)).
+  set (valid := filter (fun a0 => negb (touches ([xd] ++ flat_map a_dims red) a0)) (axes_of s)).
+  destruct (touches [xd] a) eqn:Es.
+  - apply touches_spec in Es. destruct Es as (d0 & Hd0 & [<-|[]]).
+    exists a. split; [|exact Hda]. apply in_or_app. left. apply in_or_app. right. left.
+    apply axis_of_unique; assumption.
+  - destruct (Q a) eqn:Eq.
+    + exists a. split; [|exact Hda]. apply in_or_app. right. apply filter_In. tauto.
+    + assert (Hv : In a valid).
+      { apply filter_In. split; [exact Ha|]. apply negb_true_iff.
+        destruct (touches ([xd] ++ flat_map a_dims red) a) eqn:Et; [|reflexivity]. exfalso.
+        apply touches_spec in Et. destruct Et as (d' & Hd' & Hin). apply in_app_or in Hin. destruct Hin as [Hin|Hin].
+        - assert (touches [xd] a = true) by (apply touches_spec; exists d'; tauto). congruence.
+        - apply in_flat_map in Hin. destruct Hin as (r & Hr & Hdr). apply filter_In in Hr. destruct Hr as (HrF & HrQ).
+          assert (a = r) by (eapply disjoint_unique; eassumption). subst r. congruence. }
+      exists a. split; [|exact Hda]. apply in_or_app. left. apply in_or_app. left.
+      destruct (existsb (nat_list_eqb (a_dims a)) (s_iter s)) eqn:Ei.
+      * apply in_or_app. left. apply existsb_exists in Ei. destruct Ei as (ds & Hds & E).
+        apply in_flat_map. exists ds. split; [exact Hds|]. apply filter_In. split; [exact Hv|exact E].
+      * apply in_or_app. right. apply filter_In. split; [exact Hv|]. rewrite Ei. reflexivity.
+Qed.
+
+Lemma c_x_in_axes s xd :
+  covers_dims (ndims_of s) (axes_of s) -> axes_disjoint (axes_of s) -> s_xdim s = Some xd -> (xd < ndims_of s)%nat ->
+  In (c_x (ctx_of s)) (axes_of s) /\ In xd (a_dims (c_x (ctx_of s))).
+Proof.
+  intros Hc Hdj Hx Hxd. destruct (Hc xd Hxd) as (a & Ha & Hda). unfold ctx_of. cbn [c_x]. rewrite Hx.
+  rewrite (axis_of_unique _ a xd Hdj Ha Hda). tauto.
+Qed.
+
+Lemma covered_product v (axs sub : list axis) :
+  covered axs v -> (forall a, In a sub -> In a axs) -> In (map (proj v) sub) (product (map a_dom sub)).
+Proof.
+  intros Hc Hsub. apply in_product. unfold covered in Hc. rewrite Forall_forall in Hc.
+  induction sub as [|a l IH]; cbn; constructor.
+  - apply Hc, Hsub. left. reflexivity.
+  - apply IH. intros x Hx. apply Hsub. right. exact Hx.
+Qed.
+
+Lemma group_has s c (f : list Z -> option Z) fixed v i :
+  covers_dims (ndims_of s) (fixed ++ c_red c) -> length v = ndims_of s ->
+  In (map (proj v) (c_red c)) (product (map a_dom (c_red c))) -> f v = Some i ->
+  In i (group s c f fixed (map (proj v) fixed)).
+Proof.
+  intros Hc Hl Hin Hf. unfold group. apply in_flat_map. exists (map (proj v) (c_red c)). split; [exact Hin|].
+  rewrite <- map_app, full_index_proj by assumption. rewrite Hf. left. reflexivity.
 Qed.
